@@ -68,3 +68,37 @@ def run_C11(ctx):
     ctx.vh("c11-record", tp2, ctx.seed, 20, 20, "corrupt")
     ok2, _ = validate_trace(ctx, "Trace_C11", "trace_c11.ndjson", tp2, expect_reject=True)
     ctx.selftest(not ok2, "C11 V: a trace with one corrupted field is rejected")
+
+
+# ------------------------------------------------------------------------ C13
+def run_C13(ctx):
+    ctx.cov["rule"] = ("G: one case per edge (prefix . byte) of the keyword recogniser explored breadth-first from the directive-start "
+                       "state over the full 256-byte alphabet (bytes fed only while inside or just behind a keyword); the expectation is "
+                       "the specification's run to end of file on exactly that tape. Non-trivial = distinct (outcome, error class, lexeme shape, tape length).")
+    ctx.assumptions += ["the keyword list of spec/Lang.tla is an independent transcription of the JSight API 0.3 keywords",
+                        "a body start directly behind a keyword is judged by jsight-schema-core (outcome 'oracle': lexeme prefix compared)"]
+    r = ctx.tlc("MC_C13", timeout=600)
+    res = ctx.vh("scan-replay", r.out, env={"VH_DISTINCT": "len"})
+    if res["cases"] == 0 or res.get("counters", {}).get("tables-compared") != 1:
+        raise MachineryError("C13: nothing replayed or keyword tables not compared")
+    ctx.absorb(res, "G:scan-replay(keywords)")
+    ctx.cov["exhaustive"] = True
+    ctx.cov["keywords_accepted_by_real_scanner"] = res.get("extra", {}).get("keywords_accepted")
+    st = ctx.vh("scan-replay", r.out, "selftest")
+    ctx.selftest(st["n_mismatch"] == st["cases"], "C13 G: every corrupted expectation is reported")
+
+
+# ------------------------------------------------------------------------ C12
+def run_C12(ctx):
+    ctx.cov["rule"] = ("G: one case per Feed edge of the byte-level scanner model over all tapes assembled from the chunk menu "
+                       "(12 single bytes of every class the scanner distinguishes, 30 keywords, a response code, 4 parameters, 4 bodies) up to MaxLen bytes; "
+                       "expectation = specification's run to end of file (type, begin, end of every lexeme; error index). "
+                       "Non-trivial = distinct (outcome, error class, lexeme shape, tape length).")
+    ctx.assumptions += ["extent and validity of schema / enum bodies are decided by jsight-schema-core Len() (trusted oracle: pool bodies with known length)"]
+    cfg = "MC_C12_quick.cfg" if ctx.quick else "MC_C12_thorough.cfg"
+    r = ctx.tlc("MC_C12", cfg=cfg, timeout=3000)
+    res = ctx.vh("scan-replay", r.out, env={"VH_DISTINCT": "len"})
+    ctx.absorb(res, "G:scan-replay(extent)")
+    ctx.cov["exhaustive"] = True
+    st = ctx.vh("scan-replay", r.out, "selftest")
+    ctx.selftest(st["n_mismatch"] == st["cases"], "C12 G: every corrupted expectation is reported")
